@@ -6,6 +6,7 @@ use serde_json::{json, Value};
 mod split;
 mod chash;
 mod sync;
+mod mdline;
 
 fn dispatch(op: &str, arg: &Value) -> Result<Value, String> {
     match op {
@@ -13,6 +14,8 @@ fn dispatch(op: &str, arg: &Value) -> Result<Value, String> {
         "streamread" => split::op_streamread(arg),
         "chash" => chash::op_chash(arg),
         "sync" => sync::op_sync(arg),
+        "mdline" => mdline::op_mdline(arg),
+        "mdparse" => mdline::op_mdparse(arg),
         _ => Err(format!("unknown op {}", op)),
     }
 }
